@@ -552,7 +552,14 @@ func buildDecl(block []string, fn, rel, path string) *harnessDecl {
 					}
 					continue
 				}
-				n, _ := strconv.Atoi(p[1])
+				val := p[1]
+				if qt := strings.SplitN(val, "/", 2); len(qt) == 2 { // quick/thorough pair
+					val = qt[0]
+					if *flagTier == "thorough" {
+						val = qt[1]
+					}
+				}
+				n, _ := strconv.Atoi(val)
 				switch p[0] {
 				case "unwind":
 					d.Cfg.Unwind = n
